@@ -507,3 +507,133 @@ def loop_oracle(X, centre, L, stream, used, n):
             return f"draw {s_}: L^-1 (x - x_map) = {Xi[:, s_].tolist()} is not a fresh block of the consumed stream {stream[:used].tolist()} (after position {o})"
         o = found + n
     return None
+
+
+# ----------------------------------------------------------------------------------------------- MAP / ML decision table (Model/C15_route.lean)
+def _probe(fn):
+    try:
+        with quiet():
+            fn()
+        return "ok"
+    except NotImplementedError:
+        return "notimpl"
+    except AttributeError:
+        return "attr"
+    except Exception:
+        return "other"
+
+
+def run_calls(ctx, cuqi, rs, thorough):
+    """MAP/ML(disp, x0) on generated problem classes with recording solver classes: route, solver class, gradfunc or None,
+    start point, printed lines, info label, geometry of the result, propagation of probe exceptions vs `estimateCall`.
+    The two gradient probes (at the start point, at zeros) are measured on the implementation (leaf inputs)."""
+    import io, contextlib
+    import harness.props.c15 as base
+    import cuqi.solver as solver_mod
+    nprob = 160 if thorough else 24
+    saved_solvers = (solver_mod.minimize, solver_mod.L_BFGS_B)
+    saved_max = cuqi.config.MAX_DIM_INV
+    jobs, lines = [], []
+    hist = {}
+    try:
+        for k in range(nprob):
+            pk = base.PRIORS[k % len(base.PRIORS)]
+            mk = "linear" if (k // len(base.PRIORS)) % 3 != 2 else "nonlinear"
+            n = int(rs.randint(2, 5)); m = int(rs.randint(2, 6))
+            maxdim = [2000, 2000, 3, 2][rs.randint(0, 4)]
+            try:
+                with quiet():
+                    BP, pkind, A, sig2, b = base.make_problem(cuqi, pk, mk, m, n, rs, noise=("scalar" if k % 2 else "full"))
+            except Exception as e:
+                ctx.note(f"call problem not constructible {pk}/{mk}: {type(e).__name__}")
+                continue
+            mm = BP.model.range_dim
+            for which in ("MAP", "ML"):
+                for disp in (False, True):
+                    for userx0 in (False, True):
+                        if pk in ("lognormal", "beta"):
+                            ux = rs.uniform(0.2, 0.8, size=n)
+                        else:
+                            ux = rs.randint(-2, 3, size=n) / 2.0
+                        start = ux if userx0 else np.ones(n)
+                        dens = BP.posterior if which == "MAP" else BP.likelihood
+                        p_start = _probe(lambda: dens.gradient(start.copy()))
+                        p_zero = _probe(lambda: BP.posterior.gradient(np.zeros(BP.posterior.dim)))
+                        base._Recorder.log = []
+                        solver_mod.minimize = base._Recorder("minimize"); solver_mod.L_BFGS_B = base._Recorder("lbfgsb")
+                        cuqi.config.MAX_DIM_INV = maxdim
+                        buf = io.StringIO()
+                        try:
+                            with contextlib.redirect_stdout(buf):
+                                import warnings
+                                with warnings.catch_warnings():
+                                    warnings.simplefilter("ignore")
+                                    out = getattr(BP, which)(disp=disp, x0=(ux.copy() if userx0 else None)) if userx0 or disp is False else getattr(BP, which)(disp)
+                            impl = ("ok", out)
+                        except Exception as e:
+                            impl = ("err", type(e).__name__)
+                        finally:
+                            solver_mod.minimize, solver_mod.L_BFGS_B = saved_solvers
+                            cuqi.config.MAX_DIM_INV = saved_max
+                        rec = base._Recorder.log[0] if base._Recorder.log else None
+                        printed = [ln.strip() for ln in buf.getvalue().splitlines() if ln.strip()]
+                        jobs.append((pk, mk, m, n, maxdim, which, disp, userx0, ux, p_start, p_zero, impl, rec, printed, BP, A, sig2, b))
+                        lines.append(f"call {which} {int(disp)} {int(userx0)} {p_start} {p_zero} {pkind} gaussian {mk} {n} {mm} {maxdim}")
+    finally:
+        solver_mod.minimize, solver_mod.L_BFGS_B = saved_solvers
+        cuqi.config.MAX_DIM_INV = saved_max
+    outs = ctx.lean.drive(lines) if lines else []
+    for (pk, mk, m, n, maxdim, which, disp, userx0, ux, p_start, p_zero, impl, rec, printed, BP, A, sig2, b), out, line in zip(jobs, outs, lines):
+        desc = {"prior": pk, "model": mk, "m": m, "n": n, "MAX_DIM_INV": maxdim, "which": which, "disp": disp, "x0_arg": ux.tolist() if userx0 else None,
+                "probe_at_start": p_start, "probe_at_zeros": p_zero, "driver_line": line}
+        key = f"call:{which}:{pk}:{mk}:{'small' if maxdim < 10 else 'default'}-maxdim:{'x0' if userx0 else 'nox0'}:{'disp' if disp else 'quiet'}"
+        ctx.case("call-" + which, desc)
+        lab = out.split(" ")[0]
+        hist[f"{lab}|start:{p_start}|zeros:{p_zero}"] = hist.get(f"{lab}|start:{p_start}|zeros:{p_zero}", 0) + 1
+        bad = None
+        if out == "raise":
+            if impl[0] != "err":
+                bad = ("an exception of a gradient probe propagates", "returns", "probe exception swallowed")
+        elif out == "bad-op":
+            bad = ("driver accepts the line", out, "driver")
+        else:
+            f = dict(t.split("=", 1) for t in out.split(" lines=")[0].split(" "))
+            mlines = [x.strip() for x in out.split(" lines=", 1)[1].split("|") if x.strip()] if " lines=" in out else []
+            got_route = "direct" if rec is None else rec["solver"]
+            if impl[0] == "err":
+                if f["route"] != "direct" or rec is not None:
+                    bad = (out[:120], "raises " + impl[1], "MAP/ML raises where the decision table returns")
+                # closed form raising (e.g. a Gaussian without stored covariance) is part 1's subject
+            elif got_route != f["route"]:
+                bad = ("route " + f["route"], got_route, "route / solver class")
+            else:
+                o = impl[1]
+                if rec is not None:
+                    if (rec["gradfunc"] is not None) != (f["grad"] == "1"):
+                        bad = ("gradfunc given: " + f["grad"], rec["gradfunc"] is not None, "gradient function handed to the solver")
+                    elif not np.array_equal(rec["x0"], ux if f["start"] == "user" else np.ones(n)):
+                        bad = ("start = " + f["start"], rec["x0"].tolist(), "start point handed to the solver")
+                if bad is None and getattr(o, "info", {}).get("solver") != f["label"]:
+                    bad = ("info['solver'] = " + f["label"], getattr(o, "info", {}).get("solver"), "info label")
+                if bad is None:
+                    want_g = BP.posterior.geometry if f["geom"] == "posterior" else BP.likelihood.geometry
+                    if not (getattr(o, "geometry", None) == want_g):
+                        bad = ("geometry of the " + f["geom"], repr(getattr(o, "geometry", None))[:80], "geometry of the returned array")
+                if bad is None and printed != mlines:
+                    bad = (mlines, printed, "printed lines (disp)")
+        if bad:
+            ctx.disagree(key, desc, str(bad[0])[:300], str(bad[1])[:300], "MAP/ML decision table: " + bad[2])
+            # failing-input search: the real call (real solvers) on this very problem, judged by the maximiser oracle
+            cuqi.config.MAX_DIM_INV = maxdim
+            try:
+                with quiet():
+                    xr = getattr(BP, which)(disp=False, x0=(ux.copy() if userx0 else None))
+                xr = np.asarray(xr, dtype=float).ravel()
+                dens = BP.posterior if which == "MAP" else BP.likelihood
+                base.oracle_point(ctx, key, {**desc, "returned": xr.tolist()}, dens, xr, base.float_ref(BP, which, A, sig2, b, pk), rs,
+                                  tol_point=2e-3, tol_logd=1e-7, grad_tol=1e-5, what=which)
+            except Exception as e:
+                ctx.note(f"{which} raises {type(e).__name__} on the disagreeing call problem")
+            finally:
+                cuqi.config.MAX_DIM_INV = saved_max
+    ctx.extra_cov["call_table_histogram"] = hist
